@@ -67,7 +67,7 @@ def r1(ctx):
 def _no_store_condition_ok(ctx, fi, field, new_param, old_attr):
     """The setter may skip the store only when the new value equals the current one."""
     ana = ctx.ana
-    b = ana.builder(fi, no_inline=lambda f: True)
+    b = ana.builder(fi, no_inline=ana.known)
     stores = [s for s in b.stores() if s.attr == field]
     if not stores:
         ctx.fail(fi, f"setter never stores `{field}`", role=f"setter:{field}:stores")
@@ -105,7 +105,7 @@ def r2(ctx):
                   role="setter:refresh-postdominates", expected="self._update_cluster_membership() after the store", found="a path skipping the refresh")
         ctx.check(s.value == Sym(st.params[1]), st, "the stored labelling is the assigned value", role="setter:value", found=str(s.value))
     # the refresh
-    b = ana.builder(upd, no_inline=lambda f: True)
+    b = ana.builder(upd, no_inline=ana.known)
     self_ = Sym(upd.params[0])
     labels = Attr(self_, "point_labels")
     ss = [s for s in b.stores() if s.attr == "member_points"]
@@ -117,7 +117,7 @@ def r2(ctx):
         ctx.fail(upd, "per-cluster membership assignment not found", role="refresh:assign")
     for s in main:
         k = s.base.idx[0]
-        rng = b.loop_range(s.loops[-1]) if isinstance(s.loops[-1], ast.For) else None
+        rng = s.loop_ranges[-1]
         okr = s.base.base == Attr(self_, "clusters") and rng == Range(0, Attr(Attr(self_, "arguments"), "num_clusters")) and k == Sym(s.loops[-1].target.id)
         ctx.check(okr, upd, "membership is assigned for every cluster id in range(K)", line=s.stmt.lineno, role="refresh:range",
                   expected="for k in range(K): self.clusters[k].member_points = ...", found=f"{s.base} with range {rng}")
@@ -269,7 +269,7 @@ def r4(ctx):
     ana = ctx.ana
     ms = ana.prog.cls(MS)
     em = ms.methods["empty_model"]
-    b = ana.builder(em, no_inline=lambda f: True)
+    b = ana.builder(em, no_inline=ana.known)
     rt = b.return_term()
     cl = rt.kwarg("clusters") if isinstance(rt, App) else None
     ok = isinstance(cl, Comp) and not cl.conds and cl.iter == Range(0, Attr(Sym(em.params[0]), "num_clusters"))
@@ -288,7 +288,7 @@ def r4(ctx):
                     val = next((k.value for k in n.keywords if k.arg == "clusters"), None)
             if val is None:
                 continue
-            bb = bb or ana.builder(fi, no_inline=lambda f: True)
+            bb = bb or ana.builder(fi, no_inline=ana.known)
             t = bb.term(val)
             ln = tm.length(t) if not isinstance(t, App) else (tm.length(t.args[0]) if t.fn == "builtins.list" and t.args else None)
             srcs = [x for x in tm.subterms(t) if isinstance(x, Attr) and x.name == "clusters"]
@@ -371,7 +371,9 @@ def r6(ctx):
         allowed = []
         for m, objs in ext_writes(oa, model):
             if m.kind.startswith("attribute:") and m.attr in ("inverse_covariance", "log_determinant") \
-                    and m.func.qualname.endswith("likelihood.all_points_all_clusters_log_likelihood"):
+                    and ".likelihood." in m.func.qualname:
+                # derived scoring fields refreshed from train_inverse of the same cluster (C05.R3 decides that, wherever
+                # in the likelihood module the store sits)
                 allowed.append(m)
                 continue
             bad.append((m, objs))
